@@ -277,6 +277,10 @@ def _poly_tol(c):
         # of unit, so is its rounding error (the raw Vandermonde matrix of data with a small spread is not)
         xc = xc / (np.abs(xc).max() or 1.0)
         cond = float(np.linalg.cond(np.vander(xc, int(c["degree"]) + 1)))
+        # the recurrence multiplies by the RAW x and subtracts alpha ~ mean(x): data far from the origin (an offset of
+        # 30000 spreads) lose log10(offset / spread) digits at every degree (soak seed 92: 1.4e-8 at degree 4)
+        spread = float(np.abs(x - x.mean()).max()) or 1.0
+        cond *= 10.0 * (1.0 + abs(float(x.mean())) / spread)
     except Exception:  # noqa
         return TOL
     if not np.isfinite(cond):
